@@ -13,11 +13,11 @@ mkdir -p tests
 cargo test --workspace --no-fail-fast --offline 2>&1 | grep -E "^test result" >> $out
 cp $sd/demo.rs tests/demo_seed.rs
 # 2. demo with patch: must fail
-cargo test --offline --test demo_seed > /tmp/confirm.$$.log 2>&1; echo "demo_with_patch_rc=$?" >> $out
-grep -E "^test result" /tmp/confirm.$$.log >> $out
+cargo test --offline --test demo_seed > $sd/confirm.log 2>&1; echo "demo_with_patch_rc=$?" >> $out
+grep -E "^test result" $sd/confirm.log >> $out
 # 3. demo without patch: must pass
 git checkout -q -- src sonic-number sonic-simd
-cargo test --offline --test demo_seed > /tmp/confirm.$$.log 2>&1; echo "demo_without_patch_rc=$?" >> $out
-grep -E "^test result" /tmp/confirm.$$.log >> $out
-rm -f /tmp/confirm.$$.log
+cargo test --offline --test demo_seed > $sd/confirm.log 2>&1; echo "demo_without_patch_rc=$?" >> $out
+grep -E "^test result" $sd/confirm.log >> $out
+rm -f $sd/confirm.log
 cat $out
